@@ -605,7 +605,8 @@ fn event_ex(kind: Kind, stage: u16, a: u64, b: u64, may_yield: bool, spin: bool)
                 // unwinding: table-only for drops; nothing is logged, nothing yields
                 return false;
             }
-            if st.cfg.quiet > 0 && kind != Kind::Panic {
+            // (a thread that spins on a lock must always yield: the lock holder may be parked)
+            if st.cfg.quiet > 0 && kind != Kind::Panic && !spin {
                 st.quiet_ctr += 1;
                 if st.quiet_ctr & ((1u64 << st.cfg.quiet) - 1) != 0 {
                     return false;
